@@ -211,7 +211,7 @@ theorem fresh_start_ok (maximum : Nat) :
     are the states covered by the invariant.) -/
 theorem unloaded_existing_file_not_prefix :
     ∃ (F : File) (rs : List Req) (d : Db),
-      let s0 : St Pt := { (St.init : St Pt) with h := { db := [], pend := [], file := F } }
+      let s0 : St Pt := restartStale { db := [], pend := [], file := F }
       let sf := runSt (fun p => p) ⟨true, false⟩ (fun _ _ => .scalar 7) s0 rs
       sf.ok = true ∧ readFile sf.h.file = some d ∧ ¬ DbLe d sf.h.db := by
   refine ⟨[(0, ⟨⟨false, [5]⟩, ["f"], [1], []⟩)], [⟨"g", ⟨false, [9]⟩, 1⟩],
@@ -225,7 +225,7 @@ theorem unloaded_existing_file_not_prefix :
     dataset already exists in the sub-group of the unrelated entry). -/
 theorem unloaded_existing_file_export_raises :
     ∃ (F : File) (rs : List Req),
-      let s0 : St Pt := { (St.init : St Pt) with h := { db := [], pend := [], file := F } }
+      let s0 : St Pt := restartStale { db := [], pend := [], file := F }
       (runSt (fun p => p) ⟨true, false⟩ (fun _ _ => .arr ⟨[1], [7]⟩) s0 rs).ok = false :=
   ⟨[(0, ⟨⟨false, [5]⟩, ["f"], [], [(0, ⟨[1], [1]⟩)]⟩)], [⟨"g", ⟨false, [9]⟩, 1⟩], by decide⟩
 
